@@ -454,6 +454,103 @@ def _w_history_random(task):
     return acc.out()
 
 
+# ----------------------------------------------------------------------------- user-defined alphabets
+# fundamental symbols 0,1,2; P = {0,1} (ambiguous); Q = {P,2} (ambiguous, defined from another code: {0,1,2});
+# R = {2,P} (polymorphic, nested); W = {1,2} (polymorphic, flat); `?` and `-` as in every standard alphabet
+CUSTOM_CODES = {"P": "01", "Q": "012", "R": "012", "W": "12"}
+
+
+def custom_alphabet(fundamental="012", codes=True):
+    sa = dendropy.new_standard_state_alphabet(fundamental)
+    if codes:
+        p = sa.new_ambiguous_state("P", member_state_symbols="01")
+        sa.new_ambiguous_state("Q", member_states=[p, sa["2"]])
+        sa.new_polymorphic_state("R", member_states=[sa["2"], p])
+        sa.new_polymorphic_state("W", member_state_symbols="12")
+    sa.compile_lookup_mappings()
+    return sa
+
+
+def custom_set(sym, fundamental, gap):
+    if sym in CUSTOM_CODES:
+        return set(CUSTOM_CODES[sym])
+    if sym == "?":
+        return set(fundamental) | (set() if gap else {"-"})
+    if sym == "-":
+        return set(fundamental) if gap else {"-"}
+    return {sym}
+
+
+def custom_min(t, rows, fundamental, gap):
+    labs = P.leaf_labels(t)
+    space = set(fundamental) | (set() if gap else {"-"})
+    return [P.sankoff_min(t, dict((lab, custom_set(rows[lab][c], fundamental, gap)) for lab in labs), space) for c in range(len(rows[labs[0]]))]
+
+
+def _custom_score(tree, taxa, rows, sa, gap, weights=None):
+    m = dendropy.StandardCharacterMatrix.from_dict(dict((taxa[k], v) for k, v in rows.items()), taxon_namespace=taxa["__ns__"], default_state_alphabet=sa)
+    sbc = []
+    got = DP.parsimony_score(tree, m, gaps_as_missing=gap, weights=weights, score_by_character_list=sbc)
+    return got, sbc
+
+
+def _w_custom(task):
+    """(a) every one-column matrix over the user-defined alphabet; (b) an alphabet that GROWS between two scoring calls"""
+    first, syms = task
+    acc = Acc()
+    n = 3
+    labels = LEAF_LABELS[:n]
+    taxa = make_ns(labels)
+    forms = forms_for(n)
+    sa = custom_alphabet()
+    for rest in itertools.product(syms, repeat=n - 1):
+        col = (first,) + rest
+        rows = dict((lab, col[i]) for i, lab in enumerate(labels))
+        for gap in (True, False):
+            for kind, t in forms:
+                tstr = P.tree_str(t)
+                want = custom_min(t, rows, "012", gap)
+                key = "custom-alphabet|gap_missing=%d|tree=%s|rows=%s" % (gap, tstr, rows_str(rows))
+                witness = dict(custom="codes", gap=gap, tree=tstr, rows=rows_str(rows))
+                acc.case(key, want[0] >= 1)
+                try:
+                    got, sbc = _custom_score(build(t, taxa), taxa, rows, sa, gap)
+                except Exception as e:
+                    acc.fail("parsimony_score[user-alphabet].raises", key, "%s: %s" % (type(e).__name__, e), witness, n)
+                    continue
+                if got != sum(want) or list(sbc) != want:
+                    acc.fail("parsimony_score[user-alphabet].minimum", key, "score %r (per character %r); with P={0,1}, Q={P,2}, R={2,P}, W={1,2} the minimum "
+                             "number of changes is %r" % (got, sbc, want), witness, n)
+    # (b) one tree, one alphabet object: score over {0,1,?}, add the fundamental state 2, score a matrix that uses 2 and ?
+    for rest in itertools.product("012?", repeat=n - 1):
+        if first not in "012?":
+            break
+        col2 = (first,) + rest
+        rows2 = dict((lab, col2[i]) for i, lab in enumerate(labels))
+        rows1 = dict((lab, "01?"[i % 3]) for i, lab in enumerate(labels))
+        for gap in (True, False):
+            kind, t = forms[0]
+            tstr = P.tree_str(t)
+            key = "grown-alphabet|gap_missing=%d|tree=%s|first=%s|then=%s" % (gap, tstr, rows_str(rows1), rows_str(rows2))
+            witness = dict(custom="grown", gap=gap, tree=tstr, rows=rows_str(rows2), first=rows_str(rows1))
+            want = custom_min(t, rows2, "012", gap)
+            acc.case(key, want[0] >= 1)
+            try:
+                sa2 = custom_alphabet("01", codes=False)
+                tree = build(t, taxa)
+                _custom_score(tree, taxa, rows1, sa2, gap)
+                sa2.new_fundamental_state("2")
+                sa2.compile_lookup_mappings()
+                got, sbc = _custom_score(tree, taxa, rows2, sa2, gap)
+            except Exception as e:
+                acc.fail("parsimony_score[grown-alphabet].raises", key, "%s: %s" % (type(e).__name__, e), witness, n)
+                continue
+            if got != sum(want):
+                acc.fail("parsimony_score[grown-alphabet].history", key, "after scoring %s and adding the state 2 to the alphabet, %s scores %r; the minimum number of "
+                         "changes (with ? = any of 0,1,2%s) is %r" % (rows_str(rows1), rows_str(rows2), got, "" if gap else ",-", want), witness, n)
+    return acc.out()
+
+
 # ----------------------------------------------------------------------------- driver
 def oracle_selfcheck():
     """Sankoff == brute force: every 1-column DNA matrix over 7 symbols on the 3-leaf forms and over 4 symbols
@@ -553,6 +650,15 @@ def t2(ctx):
     tasks = [(rng.randrange(1 << 30), cnt // 20) for _ in range(20)]
     _gather(ctx, sc, tasks, pmap(_w_history_random, tasks, chunksize=1), cand, nf)
 
+    sc = "alphabets@user-defined"
+    cs = tuple("012PQRW?-")
+    ctx.scope(sc, rule="a standard alphabet with user-defined codes, two of them defined from ANOTHER code (P={0,1}, Q={P,2}, R={2,P} polymorphic, "
+                       "W={1,2}): every one-column matrix over {%s} on 3 leaves x 4 forms x both gap modes; and an alphabet object that grows "
+                       "(new fundamental state + compile_lookup_mappings) between two scoring calls on one tree: every column over {0,1,2,?}; "
+                       "non-trivial = the column needs >= 1 change" % ",".join(cs), exhaustive=True)
+    tasks = [(c, cs) for c in cs]
+    _gather(ctx, sc, tasks, pmap(_w_custom, tasks, chunksize=1), cand, nf)
+
     for mon in sorted(cand):
         lst = sorted(cand[mon], key=lambda c: (c[0], c[1], c[2]))
         seen, k = set(), 0
@@ -574,6 +680,21 @@ def replay(ctx, rec):
     acc = Acc()
     t = P.parse_tree(w["tree"])
     labels = P.leaf_labels(t)
+    if w.get("custom"):
+        rows = parse_rows(w["rows"])
+        taxa = make_ns(sorted(set(labels) | set(rows)))
+        want = custom_min(t, rows, "012", w["gap"])
+        if w["custom"] == "codes":
+            got, sbc = _custom_score(build(t, taxa), taxa, rows, custom_alphabet(), w["gap"])
+        else:
+            sa2 = custom_alphabet("01", codes=False)
+            tree = build(t, taxa)
+            _custom_score(tree, taxa, parse_rows(w["first"]), sa2, w["gap"])
+            sa2.new_fundamental_state("2")
+            sa2.compile_lookup_mappings()
+            got, sbc = _custom_score(tree, taxa, rows, sa2, w["gap"])
+        print("  %s: score %r, minimum number of changes %r" % (w["key"], got, sum(want)))
+        return got == sum(want)
     if w.get("history"):
         calls = [(parse_rows(r), g) for r, g in w["calls"]]
         allabs = sorted(set(labels) | set(k for r, _ in calls for k in r))
